@@ -20,6 +20,9 @@ Suites
   LINT-inc-sequence  several .inc files in one process (one lint() call in varying order, or
                   lint_file calls one after the other, references included) where some leave
                   `#filter emptyLines` on: each file's results expected from its own text only
+  LINT-project    reference-project mode end to end: a project configuration with 2-4 `paths`
+                  entries, ProjectFiles.iter_reference, mirror_reference_and_tests, one changed
+                  string per file; L10nLinter().lint as cli.py drives it, and lint.cli.main()
 The model is fed the implementation's own parse (keys, junk flags, classes, spans),
 Entity.equals for every (file entity, reference entity) pair and the real checker's
 results for (e, e); its findings are rendered to the message texts and compared with the
@@ -1274,6 +1277,134 @@ def suite_inc_sequence(chk, model, tmp):
         chk.correspond("LINT-inc-sequence", cases, impl, outs)
 
 
+# ------------------------------------------- a project, real entry point ---
+def suite_project(chk, model, tmp):
+    """moz-l10n-lint's reference-project mode end to end: a project configuration with 2-4
+    `paths` entries (each its own subtree and `test` annotation), files enumerated by
+    ProjectFiles.iter_reference, references found by mirror_reference_and_tests; every file
+    has exactly one string changed in the reference project, so every file gets exactly one
+    changed-ID warning whichever entry covers it.  Both L10nLinter().lint as lint/cli.py
+    drives it and lint.cli.main() itself (printed lines, return code)."""
+    import contextlib
+    import io
+    import sys
+    from compare_locales.lint.linter import L10nLinter
+    from compare_locales.lint import util, cli
+    from compare_locales import paths, parser
+    rng = chk.rng
+    cases, impl, reqs, wires = [], [], [], []
+    fmts = [f for f in FORMATS if f.name in ("properties", "dtd", "ftl", "ini", "inc")]
+    for i in range(chk.n(150, 1500)):
+        proj = os.path.join(tmp, "j%d" % i)
+        refroot = os.path.join(tmp, "j%d-ref" % i)
+        subs = rng.sample(["browser", "toolkit", "mobile", "devtools", "dom"], rng.randint(2, 4))
+        toml = 'basepath = "."\nlocales = ["de"]\n'
+        tests_of = {}
+        for sub in subs:
+            tests_of[sub] = rng.choice([None, ["android-dtd"], ["android-dtd", "other"]])
+            toml += '[[paths]]\n    reference = "en/%s/**"\n    l10n = "{l10n_base}/{locale}/%s/**"\n' % (sub, sub)
+            if tests_of[sub] is not None:
+                toml += "    test = %s\n" % json.dumps(tests_of[sub])
+        write_file(os.path.join(proj, "l10n.toml"), toml, rng)
+        descr = []
+        for sub in subs:
+            for j in range(rng.randint(1, 2)):
+                fmt = rng.choice(fmts)
+                keys = rng.sample(KEYS, rng.randint(2, 4))
+                if rng.random() < 0.3:
+                    keys.append(keys[0])                         # a duplicate: errors
+                recs = [{"t": "ent", "key": k, "val": "v%d" % n, "val2": "w", "viol": None,
+                         "comment": rng.random() < 0.2, "sep": " = ", "term": False}
+                        for n, k in enumerate(keys)]
+                text, info = print_file(fmt, recs)
+                rel = os.path.join("en", sub, rng.choice(["", "deep/"]) + "f%d%s" % (j, fmt.ext))
+                path = os.path.join(proj, rel)
+                write_file(path, text, rng)
+                ref_recs = [dict(r) for r in recs]
+                ref_recs[-1]["val"] = "changed"                  # the one changed string
+                ref_text, _ = print_file(fmt, ref_recs)
+                ref_path = os.path.join(refroot, rel)
+                write_file(ref_path, ref_text, rng)
+                descr.append({"fmt": fmt.name, "path": path, "rel": rel, "ref": ref_path, "text": text,
+                              "ref_text": ref_text, "mode": "file", "extra": tests_of[sub],
+                              "expected": expected_results(fmt, recs, text, info, ref_recs)})
+        if rng.random() < 0.4:
+            write_file(os.path.join(proj, "en", subs[0], "README.txt"), "k = v\nk = w\n", rng)
+        with_w = rng.random() < 0.5
+        # 1. the steps of lint/cli.py with the real functions
+        pc = paths.TOMLParser().parse(os.path.join(proj, "l10n.toml"), env={"l10n_base": "."})
+        pf = paths.ProjectFiles(None, [pc])
+        getref = util.mirror_reference_and_tests(pf, refroot)
+        files = [f for f, _, _, _ in pf.iter_reference() if parser.hasParser(f)]
+        got = run_impl(lambda: impl_dicts(L10nLinter().lint(iter(files), getref)))
+        if sorted(files) != sorted(d["path"] for d in descr):
+            chk.fail("project-enumeration", {"toml": toml, "files": [d["rel"] for d in descr]},
+                     {"got": [os.path.relpath(f, proj) for f in files]})
+        w = Wire()
+        env = [[], [], [], [], []]
+        table = []
+        for d in descr:
+            ref, tests = getref(d["path"])
+            # an entry without `test` gives an empty collection of tests
+            if ref != d["ref"] or sorted(tests or []) != sorted(d["extra"] or []):
+                chk.fail("lint-reference-path", {"how": "project", "toml": toml, "path": d["rel"]},
+                         {"got": [None if ref is None else os.path.relpath(ref, tmp), repr(tests)],
+                          "expected": [os.path.relpath(d["ref"], tmp), d["extra"]]})
+            case = dict(describe(d), toml=toml, path=d["rel"])
+            if got[0] != 0:
+                chk.fail("lint-raises", case, {"got": got})
+            else:
+                rows = [r for r in got[1] if r[0] == d["path"]]
+                if not matches_expected(rows, d["expected"]):
+                    nchg = len([r for r in rows if r[4].startswith("Changes to string")])
+                    chk.fail("project-changed-id" if nchg != 1 else "lint-checks", case,
+                             {"got": [r[1:] for r in rows], "expected": [list(e) for e in d["expected"]]})
+            parses, isf, eqs, chk_entry, results = parse_for_model(w, d["path"], ref, tests)
+            env[0] += parses
+            env[1] += isf
+            env[2] += eqs
+            env[3].append(chk_entry)
+            env[4] += results
+            table.append([canon(d["path"]), opt(ref, canon), opt(None if tests is None else 1)])
+        reqs.append((2, [env, [canon(f) for f in files], table]))
+        cases.append({"toml": toml, "files": [[d["rel"], d["text"], d["ref_text"]] for d in descr]})
+        impl.append(got)
+        wires.append(w)
+        # 2. the command itself
+        argv, cwd, out = sys.argv, os.getcwd(), io.StringIO()
+        try:
+            os.chdir(proj)
+            sys.argv = ["moz-l10n-lint"] + (["-W"] if with_w else []) + \
+                ["--reference-project", refroot, "l10n.toml"]
+            with contextlib.redirect_stdout(out):
+                rv = run_impl(cli.main)
+        finally:
+            sys.argv = argv
+            os.chdir(cwd)
+        exp_lines, any_error = [], False
+        for d in sorted(descr, key=lambda d: d["path"]):
+            for (l, c, lvl, msg) in d["expected"]:
+                exp_lines.append("%s (%d:%d): %s" % (d["rel"], l, c, msg))
+                any_error = any_error or lvl == "error"
+        exp_rv = 1 if (any_error or (with_w and exp_lines)) else 0
+        lines = out.getvalue().splitlines()
+        if rv != [0, exp_rv] or lines != exp_lines:
+            chk.fail("project-cli", {"toml": toml, "W": with_w,
+                                     "files": [[d["rel"], d["text"], d["ref_text"]] for d in descr]},
+                     {"got": [rv, lines], "expected": [exp_rv, exp_lines]})
+        chk.count(("project", toml, [(d["rel"], d["text"]) for d in descr]))
+        chk.hist("project_entries", len(subs))
+        if i == 1:
+            chk.sample({"suite": "LINT-project", "toml": toml, "files": [d["rel"] for d in descr],
+                        "cli output": lines, "cli rv": rv})
+        shutil.rmtree(proj, ignore_errors=True)
+        shutil.rmtree(refroot, ignore_errors=True)
+    if model:
+        outs = model.call(reqs, chunk=200)
+        outs = [w.decode(o, True) for w, o in zip(wires, outs)]
+        chk.correspond("LINT-project", cases, impl, outs)
+
+
 FMT_BY_NAME = {f.name: f for f in FORMATS}
 
 
@@ -1306,7 +1437,7 @@ def run(chk, runner_ok):
         for suite, args in ((suite_hasparser, ()), (suite_position, ()), (suite_entity_small, ()),
                             (suite_entity, ()),
                             (suite_file, (tmp,)), (suite_lint, (tmp,)),
-                            (suite_inc_sequence, (tmp,))):
+                            (suite_inc_sequence, (tmp,)), (suite_project, (tmp,))):
             try:
                 suite(chk, model, *args)
             except Exception:  # noqa: a suite that cannot run is a failed check, not a crash
